@@ -63,45 +63,51 @@ def tableParse (t : List (Bytes × Option String)) (bs : Bytes) : Parsed String 
 def timeOut (r : List Int × List Bytes × List Bool) : Json :=
   Json.mkObj [("ts", ints r.1), ("day", Json.arr (r.2.1.map (fun d => Json.str (toHex d))).toArray), ("set", bools r.2.2)]
 
+def runCol (j : Json) : Except String Json := do
+  let kind ← get? String j "kind"
+  let chunks ← getChunks j
+  match kind with
+  | "categorical" =>
+    let cats ← getCats j
+    pure <| outE (fun d => Json.mkObj [("data", ints d)]) (categoricalImport cats chunks [])
+  | "leaky" =>
+    let cats ← getCats j
+    pure <| outE (fun (s : LeakyState) => Json.mkObj [("data", ints s.data), ("ft_indices", nats s.ftIndices),
+        ("ft_values", Json.str (toHex s.ftValues))]) (leakyImport cats chunks LeakyState.init)
+  | "fixed" =>
+    let n ← get? Nat j "strlen"
+    pure <| outE (fun d => Json.mkObj [("data", Json.str (toHex d))]) (fixedImport n chunks [])
+  | "bool" =>
+    let mode ← modeOf (← get? String j "mode")
+    let inv ← get? Bool j "invalid_truth"
+    pure <| outE (fun (r : List Bool × List Bool) => Json.mkObj [("data", bools r.1), ("valid", bools r.2)])
+      (boolImport mode inv chunks ([], []))
+  | "int" =>
+    let mode ← modeOf (← get? String j "mode")
+    let lo ← get? Int j "lo"
+    let hi ← get? Int j "hi"
+    let it ← unhex (← get? String j "invalid_text")
+    let iv ← get? Int j "invalid_val"
+    pure <| outE (fun (r : List Int × List Bool) => Json.mkObj [("data", ints r.1), ("valid", bools r.2)])
+      (numImport (parseIntRange lo hi) mode it iv chunks ([], []))
+  | "float" =>
+    let mode ← modeOf (← get? String j "mode")
+    let it ← unhex (← get? String j "invalid_text")
+    let iv ← get? String j "invalid_val"
+    let pt ← getPTable j
+    pure <| outE (fun (r : List String × List Bool) => Json.mkObj [("data", toJson r.1), ("valid", bools r.2)])
+      (numImport (tableParse pt) mode it iv chunks ([], []))
+  | "datetime" => pure <| outE timeOut (timeImport datetimeCell chunks ([], [], []))
+  | "date" => pure <| outE timeOut (timeImport dateCell chunks ([], [], []))
+  | k => throw s!"bad kind {k}"
+
 def handle : Driver.Handler := fun op j =>
   match op with
-  | "c06_col" => some do
-    let kind ← get? String j "kind"
-    let chunks ← getChunks j
-    match kind with
-    | "categorical" =>
-      let cats ← getCats j
-      pure <| outE (fun d => Json.mkObj [("data", ints d)]) (categoricalImport cats chunks [])
-    | "leaky" =>
-      let cats ← getCats j
-      pure <| outE (fun (s : LeakyState) => Json.mkObj [("data", ints s.data), ("ft_indices", nats s.ftIndices),
-          ("ft_values", Json.str (toHex s.ftValues))]) (leakyImport cats chunks LeakyState.init)
-    | "fixed" =>
-      let n ← get? Nat j "strlen"
-      pure <| outE (fun d => Json.mkObj [("data", Json.str (toHex d))]) (fixedImport n chunks [])
-    | "bool" =>
-      let mode ← modeOf (← get? String j "mode")
-      let inv ← get? Bool j "invalid_truth"
-      pure <| outE (fun (r : List Bool × List Bool) => Json.mkObj [("data", bools r.1), ("valid", bools r.2)])
-        (boolImport mode inv chunks ([], []))
-    | "int" =>
-      let mode ← modeOf (← get? String j "mode")
-      let lo ← get? Int j "lo"
-      let hi ← get? Int j "hi"
-      let it ← unhex (← get? String j "invalid_text")
-      let iv ← get? Int j "invalid_val"
-      pure <| outE (fun (r : List Int × List Bool) => Json.mkObj [("data", ints r.1), ("valid", bools r.2)])
-        (numImport (parseIntRange lo hi) mode it iv chunks ([], []))
-    | "float" =>
-      let mode ← modeOf (← get? String j "mode")
-      let it ← unhex (← get? String j "invalid_text")
-      let iv ← get? String j "invalid_val"
-      let pt ← getPTable j
-      pure <| outE (fun (r : List String × List Bool) => Json.mkObj [("data", toJson r.1), ("valid", bools r.2)])
-        (numImport (tableParse pt) mode it iv chunks ([], []))
-    | "datetime" => pure <| outE timeOut (timeImport datetimeCell chunks ([], [], []))
-    | "date" => pure <| outE timeOut (timeImport dateCell chunks ([], [], []))
-    | k => throw s!"bad kind {k}"
+  | "c06_col" => some (runCol j)
+  | "c06_csv" => some do
+    let cols ← get? (Array Json) j "cols"
+    let outs ← cols.toList.mapM runCol
+    pure <| okJson (Json.arr outs.toArray)
   | "c06_parse_int" => some do
     let t ← unhex (← get? String j "text")
     pure <| okJson (match parseIntPy t with | some n => Json.num (JsonNumber.fromInt n) | none => Json.null)
